@@ -5,7 +5,7 @@
 From Coq Require Import Reals List Lra.
 From AhrsLib Require Import Base Rot Atan2.
 From AhrsGen Require Import C10gen_R.
-From AhrsProps Require Import C10_defs C10_ctor C10_euler.
+From AhrsProps Require Import C10_defs C10_ctor_rpy C10_euler.
 Import ListNotations.
 Open Scope R_scope.
 
